@@ -1,5 +1,6 @@
 import IastModel.Lemmas.CwMaster
 import IastModel.Spec.Coverage
+import IastModel.Spec.EraseSpec
 namespace IastModel
 open Node
 
@@ -50,12 +51,13 @@ def reqOwn (cfg : Config) (d : String) (sp0 : Span) (n : Node) : Nat :=
 
 /-- the children the operation visitor visits (the specification's exclusions: operands of `delete`,
     templates with a literal substitution; blocks and arrow functions belong to the block visitor;
-    optional chains are not claimed here) -/
+    an optional chain that is lowered — `noOpt`: one that reaches a configured method — is not claimed
+    here, every other optional chain is walked through like any expression) -/
 def visitedKids (cfg : Config) (n : Node) : List Node :=
   match n with
   | .block .. => []
   | .arrow .. => []
-  | .optChain .. => []
+  | .optChain o b sp => if noOpt cfg (.optChain o b sp) then [b] else []
   | .ident .. => []
   | .unary op a _ => if isDelete op then [] else [a]
   | .tpl exprs qs _ =>
@@ -67,7 +69,9 @@ theorem visitedKids_sub (cfg : Config) (n k : Node) (h : k ∈ visitedKids cfg n
   split at h
   · cases h
   · cases h
-  · cases h
+  · split at h
+    · simpa [kids] using h
+    · cases h
   · cases h
   · split at h
     · cases h
